@@ -14,16 +14,23 @@ import sds
 import topo
 
 FOREIGN_SRC = '''from __future__ import annotations
-from pathlib import Path, PurePath
-from decimal import Decimal
+from collections import Counter, OrderedDict, deque
 from collections.abc import Sized
+from decimal import Decimal
+from email.parser import Parser
+from html.parser import HTMLParser
+from pathlib import Path, PurePath
 
 
 def fa(p: Path, q: PurePath) -> Decimal:
     ...
 
 
-def fb(s: Sized) -> Path:
+def fb(s: Sized, c: Counter[str], o: OrderedDict[str, int], d: deque[int]) -> Path:
+    ...
+
+
+def fc(a: Parser, b: HTMLParser) -> int:
     ...
 '''
 
@@ -80,11 +87,18 @@ def main(v: Verdict) -> None:
             kw = {"opts": Opts(nc=True), "out": work / "deep" / "missing" / "dir"}
         jobs.append({"src": d, "timeout": 600, **kw})
         meta.append((d.name, ["abs", "abs+nc", "relative", "nested-missing+nc"][variant]))
-    fpk = write_pkg({"__init__.py": "", "formod.py": FOREIGN_SRC}, "forgnpk")
+    from pygen import FOREIGN_LIB, FOREIGN_LIB_USE
+    fpk = write_pkg({"__init__.py": "", "formod.py": FOREIGN_SRC, "flibuse.py": FOREIGN_LIB_USE}, "forgnpk", siblings=FOREIGN_LIB)
     for nc in (False, True):
         jobs.append({"src": fpk, "opts": Opts(nc=nc), "timeout": 300})
         meta.append((fpk.name, f"foreign-classes nc={nc}"))
     runs = run_many(jobs)
+    # a second run into the already populated output directory of the foreign-class package
+    from runner import run_cli
+    first = runs[-2]
+    if first.exit == "ok":
+        runs.append(run_cli(fpk, Opts(), out=first.out, timeout=300))
+        meta.append((fpk.name, "foreign-classes rerun-into-populated-directory"))
     obs = []
     for (name, variant), run in zip(meta, runs):
         if run.exit != "ok":
